@@ -65,6 +65,8 @@ class _HyperElastic(_IModel, ABC):
         # The fiber pattern doesn't move with time, so this is precomputed
         # once and only `active_stress` is updated each step.
         self.__TxT = Project_matrix_to_vector(TensorProd(T_hat, T_hat))  # (Ne, nPg, 6)
+        # the residual and the tangent depend on the direction
+        self.Need_Update()
 
     def Compute_active_stress(self, hyperElasticState: HyperElasticState) -> FeArray:
         r"""Active PK2 contribution ``τ · (T̂ ⊗ T̂)`` in Kelvin-Mandel vector form, shape ``(Ne, pg, d)`` with ``d = 1, 3, 6`` for a `1D`, `2D` or `3D` solution — same layout as :meth:`Compute_dWde`.
